@@ -20,7 +20,7 @@ pub const SIGMA: &[&str] = &[
     "(", ")", "[", "]", "{", "}",
     "type", "where", "Self", "_", "ref",
     // trivia
-    "//c\n", "/*c*/",
+    "//c\n", "/*c*/", "//\u{e4}\u{20ac}\n", "/*\u{1f600}*/",
     // unknown / lexer errors / non-ascii
     "\\", "$", "#", "\"u", "'", "/*", "ä", "1i32", "'\\q'", "0x", "1.5f32", "Foo", "😀",
 ];
